@@ -37,6 +37,17 @@ static inline HCLT *wmap_index(WMap *m, int key)
   return &g_anonP.second;
 }
 #define WMAP_INDEX(m, key) wmap_index(m, key)
+/* whole-map construction / copy / move / swap (TRUSTED, as in unit dispatcher): the witness entry goes with the map; a
+ * copied map holds a COPY of the callback list (a new list object: ghost identity HCLT.opaque is fresh); std::map's own
+ * copy assignment does nothing on self-assignment */
+#define GUARD_OF_eventCallbackListMap(s) (&(s)->listenerMutex)
+#define WMAP_MEMBER_INIT(m, s, name) do { (m)->has = 0; (m)->guard = GUARD_OF_##name(s); } while (0)
+#define WMAP_CTOR_COPY(d, s) do { (d)->has = (s)->has; (d)->w = (s)->w; (d)->w.second.opaque = nondet_int(); } while (0)
+#define WMAP_CTOR_MOVE(d, s) do { (d)->has = (s)->has; (d)->w = (s)->w; (s)->has = 0; } while (0)
+#define WMAP_ASSIGN_COPY(d, s) do { if ((d) != (s)) { _Bool __h = (s)->has; WPair __w = (s)->w; (d)->has = __h; (d)->w = __w; (d)->w.second.opaque = nondet_int(); } } while (0)
+#define WMAP_ASSIGN_MOVE(d, s) do { _Bool __h = (s)->has; WPair __w = (s)->w; (s)->has = nondet_bool() && (d) == (s) ? __h : 0; (d)->has = __h; (d)->w = __w; } while (0)
+#define WMAP_SWAP(a, b) do { _Bool __h = (a)->has; WPair __w = (a)->w; (a)->has = (b)->has; (a)->w = (b)->w; (b)->has = __h; (b)->w = __w; } while (0)
+#define WMAP_DTOR(m) ((void)0)
 #define WMAP_END(m) ((WMIt){(m), 2})
 static inline _Bool wmit_ne(WMIt a, WMIt b) { __CPROVER_assert(a.m == b.m, "map iterators of the same map are compared"); return a.pos != b.pos; }
 #define WMIT_NE(a, b) wmit_ne(a, b)
@@ -146,3 +157,34 @@ static inline WPair *wmit_deref(WMIt it) { __CPROVER_assert(it.pos == 0 || it.po
   __CPROVER_requires(HD_FRESH(self) && __CPROVER_is_fresh(event, sizeof(int)) && HD_PRE(self)) \
   __CPROVER_assigns(HD_FRAME(self)) \
   FOUND_OP(5, !g_rb, 0)
+
+/* ------------------------------------------------------------------ C10 / C20: construction, assignment, swap.  A constructed dispatcher has a defined state
+ * whatever its storage held before (mutex free, map guarded by its OWN mutex); a copy has the listeners of the source in
+ * lists of its own; a move / move assignment takes them over; swap exchanges them; assignment from itself keeps the same
+ * list objects (the same handles stay valid) */
+#define HD2_FRESH(a, b) (__CPROVER_is_fresh(a, sizeof(HDX)) && __CPROVER_is_fresh(b, sizeof(HDX)))
+#define HD_SELF_OR_FRESH (__CPROVER_is_fresh(self, sizeof(HDX)) && (__CPROVER_pointer_equals(other, self) || __CPROVER_is_fresh(other, sizeof(HDX))))
+#define CONTRACT_HDX_ctor \
+  __CPROVER_requires(__CPROVER_is_fresh(self, sizeof(HDX))) __CPROVER_assigns(__CPROVER_object_whole(self)) \
+  __CPROVER_ensures(!HAS(self) && self->listenerMutex.depth == 0 && self->eventCallbackListMap.guard == &self->listenerMutex)
+#define CONTRACT_HDX_ctor_copy \
+  __CPROVER_requires(HD2_FRESH(self, other)) __CPROVER_assigns(__CPROVER_object_whole(self)) \
+  __CPROVER_ensures(HAS(self) == HAS(other) && (HAS(self) ==> self->eventCallbackListMap.w.first == other->eventCallbackListMap.w.first) && self->listenerMutex.depth == 0 && self->eventCallbackListMap.guard == &self->listenerMutex) \
+  __CPROVER_ensures(HAS(other) == __CPROVER_old(HAS(other)) && other->eventCallbackListMap.w.second.opaque == __CPROVER_old(other->eventCallbackListMap.w.second.opaque))
+#define CONTRACT_HDX_ctor_move \
+  __CPROVER_requires(HD2_FRESH(self, other)) __CPROVER_assigns(__CPROVER_object_whole(self), other->eventCallbackListMap.has) \
+  __CPROVER_ensures(HAS(self) == __CPROVER_old(HAS(other)) && (HAS(self) ==> self->eventCallbackListMap.w.second.opaque == __CPROVER_old(other->eventCallbackListMap.w.second.opaque)) && self->listenerMutex.depth == 0 && self->eventCallbackListMap.guard == &self->listenerMutex)
+#define CONTRACT_HDX_assign_copy \
+  __CPROVER_requires(HD_SELF_OR_FRESH) \
+  __CPROVER_assigns(self->eventCallbackListMap.has, self->eventCallbackListMap.w) \
+  __CPROVER_ensures(HAS(self) == __CPROVER_old(HAS(other)) && HAS(other) == __CPROVER_old(HAS(other)) && __CPROVER_return_value == self) \
+  __CPROVER_ensures(other == self ==> self->eventCallbackListMap.w.second.opaque == __CPROVER_old(self->eventCallbackListMap.w.second.opaque))
+#define CONTRACT_HDX_assign_move \
+  __CPROVER_requires(HD_SELF_OR_FRESH) \
+  __CPROVER_assigns(self->eventCallbackListMap.has, self->eventCallbackListMap.w, other->eventCallbackListMap.has) \
+  __CPROVER_ensures((other != self ==> (HAS(self) == __CPROVER_old(HAS(other)) && (HAS(self) ==> self->eventCallbackListMap.w.second.opaque == __CPROVER_old(other->eventCallbackListMap.w.second.opaque)))) && __CPROVER_return_value == self)
+#define CONTRACT_HDX_swap \
+  __CPROVER_requires(HD_SELF_OR_FRESH) \
+  __CPROVER_assigns(self->eventCallbackListMap.has, self->eventCallbackListMap.w, other->eventCallbackListMap.has, other->eventCallbackListMap.w) \
+  __CPROVER_ensures(HAS(self) == __CPROVER_old(HAS(other)) && HAS(other) == __CPROVER_old(HAS(self))) \
+  __CPROVER_ensures(self->eventCallbackListMap.w.second.opaque == __CPROVER_old(other->eventCallbackListMap.w.second.opaque) && other->eventCallbackListMap.w.second.opaque == __CPROVER_old(self->eventCallbackListMap.w.second.opaque))
